@@ -7,7 +7,7 @@ ID = "C18"
 TITLE = "Moment-imposing transforms hit their target and keep what they promise to keep"
 PROPS_FILE = "Props/Properties_C18.v"
 LEVEL = "proof"
-SIZES = {"quick": 2600, "thorough": 52000}
+SIZES = {"quick": 2400, "thorough": 48000}
 PARALLEL = True
 SHARD = 200
 COQ_TIMEOUT = 900
@@ -168,6 +168,12 @@ def generate(rng, n, tier):
                     pairs.append([i, j])
                 if pairs and rng.random() < 0.12:       # symmetric duplicate
                     pairs.append([pairs[0][1], pairs[0][0]])
+                if k >= 4 and rng.random() < 0.12:      # two separate pairs linked by a later one (chained)
+                    a, b, c2, d = rng.sample(range(k), 4)
+                    pairs = [[a, b], [c2, d], [a, c2]]
+                elif k >= 3 and rng.random() < 0.15:    # a star: everything collapses onto one key
+                    a = rng.randrange(k)
+                    pairs = [[a, j] for j in rng.sample([j for j in range(k) if j != a], rng.randint(1, min(3, k - 1)))]
                 if k and rng.random() < 0.04:
                     pairs.append([0, k + rng.randint(0, 2)])     # out of range
                 c["pairs"] = pairs
